@@ -236,11 +236,27 @@ TryMergeNextStateAsFold(ctx) ==
 NoTp == [p |-> "", s |-> "", f |-> "", lens |-> ""]
 \* a value: v (JSON), tp (tetraplet), elems (the elements of a canon stream, else <<>>), pos (trace position
 \* of the state that holds it, for stream values), prov (provenance kind)
-Val(v, tp) == [v |-> v, tp |-> tp, elems |-> <<>>, cn |-> FALSE, pos |-> -1, prov |-> "literal"]
-ValAt(v, tp, pos, prov) == [v |-> v, tp |-> tp, elems |-> <<>>, cn |-> FALSE, pos |-> pos, prov |-> prov]
+Val(v, tp) == [v |-> v, tp |-> tp, elems |-> <<>>, cn |-> FALSE, cm |-> FALSE, pos |-> -1, prov |-> "literal"]
+ValAt(v, tp, pos, prov) == [v |-> v, tp |-> tp, elems |-> <<>>, cn |-> FALSE, cm |-> FALSE, pos |-> pos, prov |-> prov]
 CanonVal(peer, elems) ==
     [v |-> Arr([i \in 1..Len(elems) |-> elems[i].v]), tp |-> [p |-> peer, s |-> "", f |-> "", lens |-> ""],
-     elems |-> elems, cn |-> TRUE, pos |-> -1, prov |-> "canon"]
+     elems |-> elems, cn |-> TRUE, cm |-> FALSE, pos |-> -1, prov |-> "canon"]
+\* stream maps hold {key, value} objects; keys are compared as text (42 and "42" are the same key).  TLC cannot order
+\* strings, so the key universe of the generated scripts is listed in its (byte-wise) order.
+KeyOrder == <<"0", "1", "2", "3", "k1", "k2", "k3">>
+KeyKnown(s) == \E n \in 1..Len(KeyOrder) : KeyOrder[n] = s
+KeyOfElem(e) == e.v.q[1].q[1].s
+ValueOfElem(e) == e.v.q[2].q[1]
+KeysOf(elems) == SelectSeq(KeyOrder, LAMBDA k : \E j \in 1..Len(elems) : KeyOfElem(elems[j]) = k)
+ElemsWithKey(elems, k) == SelectSeq(elems, LAMBDA e : KeyOfElem(e) = k)
+\* CanonStreamMap::as_jvalue: key -> array of all values under the key, keys sorted
+MapObjV(elems) ==
+    LET ks == KeysOf(elems) IN
+    Obj([n \in 1..Len(ks) |-> KV(ks[n], Arr(LET es == ElemsWithKey(elems, ks[n]) IN [j \in 1..Len(es) |-> ValueOfElem(es[j])]))])
+\* StreamMap::iter_unique_key_object: key -> the first value under the key
+UniqueObjV(elems) ==
+    LET ks == KeysOf(elems) IN Obj([n \in 1..Len(ks) |-> KV(ks[n], ValueOfElem(ElemsWithKey(elems, ks[n])[1]))])
+CanonMapVal(peer, elems) == [CanonVal(peer, elems) EXCEPT !.v = MapObjV(elems), !.cm = TRUE]
 NoVal == Val(Null, NoTp)
 Cell(d, set, val) == [depth |-> d, set |-> set, val |-> val]
 HasName(ctx, n) == n \in DOMAIN ctx.sc
@@ -410,7 +426,15 @@ PlainLens(lens) == \A i \in 1..Len(lens) : lens[i].lk \in {"field", "idx"}
 
 \* apply_lambda_with_tetraplets on a scalar
 ApplyLens(ctx, val, lens) ==
-    IF val.cn THEN
+    IF val.cm THEN
+        \* a canon map (select_by_path_from_canon_map), `#%c.$.key` only: the array of the values under the key (empty when
+        \* the key is absent), the map's tetraplet with the whole path as lens
+        (IF Len(lens) # 1 \/ lens[1].lk \notin {"field", "idx"} THEN RErr(-2)
+         ELSE LET k == IF lens[1].lk = "field" THEN lens[1].name ELSE ToString(lens[1].ix)
+                  es == ElemsWithKey(val.elems, k) IN
+              [r |-> "ok", code |-> 0,
+               val |-> [Val(Arr([j \in 1..Len(es) |-> ValueOfElem(es[j])]), [val.tp EXCEPT !.lens = LensText(lens)]) EXCEPT !.prov = val.prov]])
+    ELSE IF val.cn THEN
         \* a canon stream (jvaluable/canon_stream.rs, select_by_path_from_stream): the first accessor picks the element, the
         \* rest navigates inside it; the result keeps the element's own tetraplet (no lens suffix) and provenance
         (IF lens[1].lk # "idx" \/ ~PlainLens(lens) THEN RErr(-2)
@@ -449,10 +473,12 @@ Resolve(ctx, o) ==
       [] OTHER -> RErr(-2)
 
 Sigil(n) == SubSeq(n, 1, 1)
+Prefix2(n) == IF Len(n) >= 2 THEN SubSeq(n, 1, 2) ELSE n
 Supported(o) ==
     \/ o.o \in {"lit", "peer", "init", "empty", "ts", "ttl"}
     \/ (o.o = "var" /\ Sigil(o.n) \notin {"#", "$", "%"} /\ \A i \in 1..Len(o.lens) : o.lens[i].lk \in {"field", "idx", "len"})
-    \/ (o.o = "var" /\ Sigil(o.n) = "#" /\ SubSeq(o.n, 1, 2) # "#%"
+    \/ (o.o = "var" /\ Prefix2(o.n) = "#%" /\ (Len(o.lens) = 0 \/ (Len(o.lens) = 1 /\ o.lens[1].lk \in {"field", "idx"})))
+    \/ (o.o = "var" /\ Sigil(o.n) = "#" /\ Prefix2(o.n) # "#%"
             /\ (Len(o.lens) = 0 \/ (o.lens[1].lk = "idx" /\ \A i \in 1..Len(o.lens) : o.lens[i].lk \in {"field", "idx"})))
     \/ (o.o \in {"lasterr", "err"} /\ Len(o.lens) = 1 /\ o.lens[1].lk = "field" /\ o.lens[1].name = "error_code")
 
@@ -736,13 +762,23 @@ ExecApMap(i, ctx) ==
          IF Failed(c2) THEN c2 ELSE Push(c2, ApState)
 
 \* canon (instructions/canon.rs, canon_utils/mod.rs)
+\* the three epilogs: canon stream, canon map (canon_map.rs), stream map rendered into a scalar
+\* (canon_stream_map_scalar.rs: the canon state carries one value, the object of the unique keys)
+CanonBind(i, ctx, peer, elems) ==
+    IF Sigil(i.s) = "$" THEN SetValue(ctx, i.c, CanonVal(peer, elems))
+    ELSE IF Sigil(i.c) = "#" THEN SetValue(ctx, i.c, CanonMapVal(peer, elems))
+    ELSE IF Len(elems) = 0 THEN Raise(ctx, Uncatch(20016))
+    ELSE SetValue(ctx, i.c, ValAt(elems[1].v, [p |-> peer, s |-> "", f |-> "", lens |-> ""], Len(ctx.out), "canon"))
 CanonCreate(i, ctx, peer) ==
     LET g == GetStream(ctx, i.s)
-        vals == IF g.found THEN StreamIter(g.st) ELSE <<>>
+        all == IF g.found THEN StreamIter(g.st) ELSE <<>>
+        vals == IF Sigil(i.s) = "%" /\ Sigil(i.c) # "#"
+                THEN <<ValAt(UniqueObjV(all), [p |-> peer, s |-> "", f |-> "", lens |-> ""], 0, "literal")>>
+                ELSE all
         st == CanonExecState(peer, vals)
-        c2 == SetValue(ctx, i.c, CanonVal(peer, vals))
+        c2 == CanonBind(i, ctx, peer, vals)
     IN IF Failed(c2) THEN c2 ELSE Push(c2, st)
-ElemVal(e) == [v |-> e.v, tp |-> [p |-> e.p, s |-> e.s, f |-> e.f, lens |-> e.lens], elems |-> <<>>, cn |-> FALSE, pos |-> -1, prov |-> e.prov]
+ElemVal(e) == [v |-> e.v, tp |-> [p |-> e.p, s |-> e.s, f |-> e.f, lens |-> e.lens], elems |-> <<>>, cn |-> FALSE, cm |-> FALSE, pos |-> -1, prov |-> e.prov]
 ExecCanon(i, ctx0) ==
     LET m == TryMergeNextStateAsCanon(ctx0)
         ctx == m.ctx
@@ -757,7 +793,7 @@ ExecCanon(i, ctx0) ==
                   (IF peer # ctx.me THEN Incomplete(Push(ctx, m.st)) ELSE CanonCreate(i, ctx, peer))
               ELSE IF m.st.p # peer \/ m.st.s # "" \/ m.st.f # "" \/ m.st.lens # "" THEN Raise(ctx, Uncatch(U_ParamsMismatch))
               ELSE LET elems == [j \in 1..Len(m.st.vals) |-> ElemVal(m.st.vals[j])]
-                       c2 == SetValue(ctx, i.c, CanonVal(m.st.p, elems)) IN
+                       c2 == CanonBind(i, ctx, m.st.p, elems) IN
                    IF Failed(c2) THEN c2 ELSE Push(c2, m.st))
     ELSE
         (IF pr.r = "join" THEN Incomplete(ctx)
@@ -846,7 +882,7 @@ FsmFoldEnd(ctx, fid) ==
                 !.ff = WithoutName(@, fid)]
 
 ExecNew(i, ctx) ==
-    IF Sigil(i.n) = "$" THEN
+    IF Sigil(i.n) \in {"$", "%"} THEN
         \* Streams::meet_scope_start / meet_scope_end: a fresh stream for the span of this `new`, compacted at its end
         LET ds0 == IF i.n \in DOMAIN ctx.sm THEN ctx.sm[i.n] ELSE <<>>
             c0 == [ctx EXCEPT !.sm = WithName(@, i.n, Append(ds0, [scope |-> i, st |-> EmptyStream])), !.lex = @ \cup {i}]
@@ -923,7 +959,7 @@ ExecFoldStream(i, ctx) ==
        ELSE FsmFoldEnd([r.ctx EXCEPT !.ok = r.anyOk], fid)
 
 ExecFold(i, ctx) ==
-    IF i.it.o = "var" /\ Sigil(i.it.n) = "$" THEN ExecFoldStream(i, ctx)
+    IF i.it.o = "var" /\ Sigil(i.it.n) \in {"$", "%"} THEN ExecFoldStream(i, ctx)
     ELSE
     LET a == Resolve(ctx, i.it) IN
     IF a.r = "join" THEN Incomplete(ctx)
@@ -962,13 +998,14 @@ SupportedInstr(i) ==
                           /\ (\A j \in 1..Len(i.args) : Supported(i.args[j]))
                           /\ (i.out = "" \/ Sigil(i.out) \notin {"%", "#"})
       [] i.op \in {"seq", "par", "xor", "null", "never", "next"} -> TRUE
-      [] i.op = "new" -> Sigil(i.n) \notin {"%", "#"}
+      [] i.op = "new" -> Sigil(i.n) # "#"
       [] i.op = "fail" -> i.a.o = "lit" \/ (i.a.o \in {"lasterr", "err"} /\ Len(i.a.lens) = 0)
       [] i.op \in {"match", "mismatch"} -> Supported(i.a) /\ Supported(i.b)
       [] i.op = "ap" -> Supported(i.src) /\ Sigil(i.dst) \notin {"%", "#"}
-      [] i.op = "apmap" -> Supported(i.src) /\ Sigil(i.dst) = "%" /\ i.key.o = "lit" /\ i.key.v.t \in {"s", "n"}
-      [] i.op = "fold" -> i.it.o = "var" /\ (Supported(i.it) \/ (Sigil(i.it.n) = "$" /\ Len(i.it.lens) = 0))
-      [] i.op = "canon" -> Supported(i.peer) /\ Sigil(i.s) = "$" /\ SubSeq(i.c, 1, 2) = "#$"
+      [] i.op = "apmap" -> Supported(i.src) /\ Sigil(i.dst) = "%" /\ i.key.o = "lit" /\ i.key.v.t \in {"s", "n"} /\ KeyKnown(i.key.v.s)
+      [] i.op = "fold" -> i.it.o = "var" /\ (Supported(i.it) \/ (Sigil(i.it.n) \in {"$", "%"} /\ Len(i.it.lens) = 0))
+      [] i.op = "canon" -> Supported(i.peer) /\ ((Sigil(i.s) = "$" /\ Prefix2(i.c) = "#$")
+                                                  \/ (Sigil(i.s) = "%" /\ (Prefix2(i.c) = "#%" \/ Sigil(i.c) \notin {"#", "$", "%"})))
       [] OTHER -> FALSE
 
 Exec(i, ctx) ==
